@@ -57,6 +57,11 @@ def gen_history(rng):
                 if w in hist[-1][0]:
                     ghosts.append(w)
             continue
+        if rng.random() < 0.07:
+            # a backslash inside a line (strings have no escapes; only a backslash that ENDS a line continues it)
+            hist.append((rng.choice(["puts(\"C:\\dir\\file %d\");" % k, "let bs%d = \"a\\b\"; puts(len(bs%d));" % (k, k), "puts(\"\\\", %d);" % k, "\"mid\\dle\"",
+                                      "puts('\\', %d);" % k]), "ok"))
+            continue
         if c < 0.22 or not names:
             nm = "v%d" % k
             if rng.random() < 0.15:
@@ -171,7 +176,7 @@ def run(chk):
                        "run_prompt loop itself is the real one", "lines that fail at run time fail in their last statement, before any "
                        "side effect of it"]
     chk.floor = 100
-    chk.rule += "; plus bindings that share a builtin's name, lines rejected for their size after definitions that compiled, later uses of names that only rejected lines tried to define, definitions with their own constants in a line that then fails at run time, lines rejected after a block or body re-bound an existing name, followed by reads of that name from nested scopes"
+    chk.rule += "; plus bindings that share a builtin's name, lines rejected for their size after definitions that compiled, later uses of names that only rejected lines tried to define, definitions with their own constants in a line that then fails at run time, lines rejected after a block or body re-bound an existing name, followed by reads of that name from nested scopes, lines with a backslash that does not end them"
     work = core.scratch_dir()
     try:
         n = 120 if quick else 3000
